@@ -99,7 +99,13 @@ def work(item):
     numeric = netcheck.casadi_numeric_for(topo)
     for st in ("SX", "MX"):
         try:
-            FA, bA, PA, decl = runs.cas_function(topo, st, numeric, 0, False, flags)
+            def prestepped(tp, P, eng):
+                # the same network objects were stepped before with every option on (options must not stick to the elements)
+                b = T_.build(tp, P)
+                b.net.step(engine=eng, **runs.flags_of(0b111111), **T_.model_kwargs(tp, P))
+                return b
+
+            FA, bA, PA, decl = runs.cas_function(topo, st, numeric, 0, False, flags, builder=prestepped if (bits + seed) % 2 else None)
             FB, bB, PB, declB = runs.cas_function(topo, st, numeric, 0, False, runs.NOFLAGS)
             insA, outsA = layout.expected(topo, bA, 0, list(decl), False)
             insB, outsB = layout.expected(topo, bB, 0, list(declB), False)
